@@ -161,3 +161,7 @@ impl<F: Future> Future for BudgetConsumer<F> {
         track_progress(projected.fut.poll(cx))
     }
 }
+
+#[cfg(kani)]
+#[path = "/verif/kani/swimos_byte_channel/coop.rs"]
+pub(crate) mod verif_kani;
